@@ -1477,3 +1477,26 @@ CASES += [
          old="""        let mut var_to_val_vec: Vec<Option<(T, T)>> = vec![None; table_len];""",
          new="""        let mut var_to_val_vec: Vec<Option<(T, T)>> = vec![None; var_to_val.len()];"""),
 ]
+
+# ------------------------------------------------------------------ WC sdd-node
+CASES += [
+    dict(name="wc-sdd-node-new-constructor", file=SB, rule="WC", props=["C04"], expect="sdd-node:unique_bdd<-xor",
+         old="""    fn xor(&'a self, f: SddPtr<'a>, g: SddPtr<'a>) -> SddPtr<'a> {
+        self.ite(f, g.neg(), g)""",
+         new="""    fn xor(&'a self, f: SddPtr<'a>, g: SddPtr<'a>) -> SddPtr<'a> {
+        if let (SddPtr::Var(l, true), false) = (f, g.is_const() || g.is_var()) {
+            return self.unique_bdd(BinarySDD::new(l, g, g.neg(), g.vtree()));
+        }
+        self.ite(f, g.neg(), g)"""),
+    dict(name="wc-sdd-node-helper-ok", file=SB, rule="WC", props=["C04", "C03"], expect=None,
+         old="""                let h = self.and(r.high(), d);
+                self.unique_bdd(BinarySDD::new(bdd.label(), l, h, bdd.index()))""",
+         new="""                let h = self.and(r.high(), d);
+                self.rebuild_binary(bdd, l, h)""",
+         more=[(SB, """    fn and_sub_desc(&'a self, r: SddPtr<'a>, d: SddPtr<'a>) -> SddPtr<'a> {""",
+                """    fn rebuild_binary(&'a self, bdd: &BinarySDD<'a>, l: SddPtr<'a>, h: SddPtr<'a>) -> SddPtr<'a> {
+        self.unique_bdd(BinarySDD::new(bdd.label(), l, h, bdd.index()))
+    }
+
+    fn and_sub_desc(&'a self, r: SddPtr<'a>, d: SddPtr<'a>) -> SddPtr<'a> {""")]),
+]
